@@ -96,7 +96,7 @@ def build(G):
     return SCFG(graph={n: BasicBlock(name=n, _jump_targets=tuple(t)) for n, t in G.items()})
 
 
-def check_queries(G, scfg, acc: Acc, label, subsets=True, is_level=False, egraph=None):
+def check_queries(G, scfg, acc: Acc, label, subsets=True, is_level=False, egraph=None, history=None):
     """G: adjacency over forward jump targets; scfg: the library graph with the same arcs."""
     from numba_scfg.core import transformations as T
     seen = set()
@@ -105,6 +105,13 @@ def check_queries(G, scfg, acc: Acc, label, subsets=True, is_level=False, egraph
         if clause in seen:
             return
         seen.add(clause)
+        if history is not None:
+            # the graph object answered queries before it was edited: answers must describe the graph as it is NOW
+            clause = "after-edit/" + clause
+            acc.viol(PROP, f"{PROP}/{clause}", f"{label}: after {history['edit']} on a graph that had already been queried: {detail}",
+                     (tuple(sorted(history["before"].items())), tuple(history["edit"])),
+                     case={"graph": {k: list(v) for k, v in history["before"].items()}, "label": label, "edit": list(history["edit"])})
+            return
         acc.viol(PROP, f"{PROP}/{clause}", f"{label}: {detail}", (tuple(sorted(G.items())),),
                  case={"graph": {k: list(v) for k, v in G.items()}, "label": label,
                        "egraph": [list(r) for r in egraph] if egraph is not None else None})
@@ -226,6 +233,56 @@ def check_queries(G, scfg, acc: Acc, label, subsets=True, is_level=False, egraph
     acc.states += 1
 
 
+def edits(G):
+    """Single edits of a graph through the public mutators."""
+    names = list(G)
+    for x in names:
+        yield ("remove_blocks", x)
+    for a in names:
+        yield ("add_block", "n", (a,))
+    alts = [()] + [(t,) for t in names] + [(names[0], names[-1])]
+    for a in names:
+        for new in alts:
+            if tuple(G[a]) != new:
+                yield ("replace_via_add_block", a, new)
+                yield ("assign_graph_item", a, new)
+
+
+def apply_edit(scfg, G, edit):
+    """Apply to the library object and to the adjacency; returns the new adjacency."""
+    from numba_scfg.core.datastructures.basic_block import BasicBlock
+    G = dict(G)
+    if edit[0] == "remove_blocks":
+        scfg.remove_blocks({edit[1]})
+        del G[edit[1]]
+    elif edit[0] == "add_block":
+        scfg.add_block(BasicBlock(name=edit[1], _jump_targets=tuple(edit[2])))
+        G[edit[1]] = tuple(edit[2])
+    elif edit[0] == "replace_via_add_block":
+        scfg.add_block(scfg.graph.pop(edit[1]).replace_jump_targets(jump_targets=tuple(edit[2])))
+        G[edit[1]] = tuple(edit[2])
+    else:
+        scfg.graph[edit[1]] = BasicBlock(name=edit[1], _jump_targets=tuple(edit[2]))
+        G[edit[1]] = tuple(edit[2])
+    # the object's dict order may differ from G's: follow the object
+    return {k: G[k] for k in scfg.graph}
+
+
+def edit_histories(G0, acc: Acc, label):
+    """query everything; edit once; query everything again on the SAME object."""
+    for edit in edits(G0):
+        scfg = build(G0)
+        scratch = Acc()
+        check_queries(G0, scfg, scratch, label)          # warms whatever the object may remember; verdicts are the other leg's
+        try:
+            G1 = apply_edit(scfg, G0, edit)
+        except Exception as e:  # noqa: BLE001
+            acc.counters[f"edit_raised[{edit[0]}:{type(e).__name__}]"] += 1
+            continue
+        acc.counters["edit_histories"] += 1
+        check_queries(G1, scfg, acc, label, history={"before": G0, "edit": edit})
+
+
 def target_lists(names, maxlen):
     out = [()]
     for k in range(1, maxlen + 1):
@@ -245,6 +302,13 @@ def _work(args):
                 check_queries(G, build(G), acc, f"digraph{len(names)}/{maxlen}")
                 if len(acc.samples) < 2 and len(G[names[0]]) == maxlen:
                     acc.samples.append({"graph": {k: list(v) for k, v in G.items()}})
+    elif kind == "edits":
+        names, maxlen, first_rows = a, b, c
+        alph = target_lists(list(names), maxlen)
+        for r0 in first_rows:
+            for rest in itertools.product(alph, repeat=len(names) - 1):
+                G = dict(zip(names, (r0,) + rest))
+                edit_histories(G, acc, f"edited-digraph{len(names)}/{maxlen}")
     else:
         n, prefix = a, b
         for g in enum_closed(n, prefix):
@@ -282,13 +346,20 @@ def run(tier: str, seed: int):
     for n in range(1, emax + 1):
         for nn, prefix in shards(n, 2):
             units.append(("levels", nn, prefix, None))
+    # histories: query, one edit through a public mutator, query again on the same object (all digraphs on 3 names, lists <= 2)
+    for names, maxlen in ((n3, 2),) if tier == "quick" else ((n3, 2), (n4, 1)):
+        alph = target_lists(list(names), maxlen)
+        for r0 in alph:
+            units.append(("edits", names, maxlen, [r0]))
     acc = Acc()
     for r in shard_map(_work, rotate(units, seed)):
         acc.merge(r)
     cov = {"rule": "ALL directed graphs on the given node names with ordered target lists up to the length bound (duplicates, self loops, one "
                    "external name) and all level graphs of the restructured hierarchies of E(n): compute_scc, is_reachable_dfs (all pairs), "
                    "find_head, find_headers_and_entries / find_exiting_and_exits (all non-empty subsets), _doms/_post_doms/_imm_doms compared "
-                   "with definition-level reference implementations; a state is one graph, a transition one query compared",
+                   "with definition-level reference implementations; a state is one graph, a transition one query compared; plus histories "
+                   "query-all / one edit through a public mutator (remove_blocks, add_block, replace via pop+add_block, item assignment) / "
+                   "query-all on the same object, for every digraph on three names",
            "bounds": {"digraph_spaces": sizes, "level_graphs_of_E_up_to": emax}, "exhaustive": True}
     return {"acc": acc, "coverage": cov, "assumptions": [
         "graphs with zero or several heads / no dominator entry are outside the definition: raising is accepted, answering is not",
@@ -306,5 +377,12 @@ def replay(case) -> Acc:
             check_queries(G, level, acc, case.get("label", "replay"), subsets=len(G) <= 5, is_level=True, egraph=g)
         return acc
     G = {k: tuple(v) for k, v in case["graph"].items()}
+    if case.get("edit"):
+        edit = tuple(tuple(x) if isinstance(x, list) else x for x in case["edit"])
+        scfg = build(G)
+        check_queries(G, scfg, Acc(), "warm")
+        G1 = apply_edit(scfg, G, edit)
+        check_queries(G1, scfg, acc, case.get("label", "replay"), history={"before": G, "edit": edit})
+        return acc
     check_queries(G, build(G), acc, case.get("label", "replay"))
     return acc
